@@ -57,16 +57,19 @@ structure Params where
   /-- number of chunks that reach the file before `__exit__` (the rest is still buffered and is
   written by `tmp.close()`) -/
   nPack : Nat
-  /-- mirror only: how many chunks of the upstream file the extractor reads before it stops -/
+  /-- mirror only: how many chunks of the upstream file the extractor (tarfile) reads before it stops
+  at the end-of-archive marker -/
   consumed : Nat
   /-- `fileMode` is configured: `os.chmod` before publishing -/
   fileMode : Bool
   deriving Repr
 
-/-- what the process hands to `write`: a mirror copies only what the extractor consumed -/
+/-- what the process hands to `write`.  A mirror copies what is read from the upstream file: what the
+extractor consumed and, if `_downloadPackage` drains the stream afterwards (it does since the fix of
+F-C09-1; taken from the current source), everything up to end of file. -/
 def written (pr : Params) : List Chunk :=
   match pr.kind with
-  | .mirror => pr.payload.take pr.consumed
+  | .mirror => if Consts.C09.mirrorDrains then pr.payload else pr.payload.take pr.consumed
   | _ => pr.payload
 
 /-- `overwrite` argument of `_openUploadFile` at the three call sites (from the current source) -/
@@ -95,7 +98,7 @@ inductive PC
   | statDest               -- os.path.isfile(destination)   (only if not overwrite)
   | ensureDir              -- os.path.isdir / os.makedirs(exist_ok=True)
   | create                 -- NamedTemporaryFile(dir=destination directory, delete=False)
-  | fetch (k : Nat)        -- produce chunk k (read workspace / read upstream); may raise
+  | fetch (k : Nat)        -- produce chunk k (read workspace / read upstream) or finish the body; may raise
   | write (k : Nat)        -- write chunk k to the temporary file
   | flush                  -- tmp.close(), part 1: write the buffered rest
   | close (ok : Bool)      -- tmp.close(), part 2: close(2); ok = false when the flush raised
@@ -159,9 +162,10 @@ def setPc (s : State) (p : Pid) (pc : PC) : State :=
 def modInode (s : State) (i : Ino) (f : Inode → Inode) : State :=
   { s with inodes := upd s.inodes i (f (s.inodes i)) }
 
-/-- loop head of the pack / extract phase -/
-def nextFetch (pr : Params) (k : Nat) : PC :=
-  if k < pr.nPack then .fetch k else .flush
+/-- after chunk `k` has been produced: write it, or (everything that reaches the file before `__exit__`
+has been written) leave the `with` body -/
+def afterFetch (pr : Params) (k : Nat) : PC :=
+  if k < pr.nPack then .write k else .flush
 
 def finalResult : LinkSt → Result
   | .linked => .ok
@@ -189,12 +193,12 @@ def exec (pr : Params) (s : State) (p : Pid) (fail : Bool) : State :=
         inodes := upd s.inodes s.nextIno { owner := p }
         nextIno := s.nextIno + 1
         nextTmp := s.nextTmp + 1
-        procs := upd s.procs p { q with pc := nextFetch pr 0, created := true, tmp := s.nextTmp, ino := s.nextIno } }
-  | .fetch k => setPc s p (if fail then .fClose else .write k)
+        procs := upd s.procs p { q with pc := .fetch 0, created := true, tmp := s.nextTmp, ino := s.nextIno } }
+  | .fetch k => setPc s p (if fail then .fClose else afterFetch pr k)
   | .write k =>
     if fail then setPc s p .fClose
     else setPc (modInode s q.ino fun n => { n with chunks := n.chunks ++ ((written pr).drop k).take 1 }) p
-           (nextFetch pr (k + 1))
+           (.fetch (k + 1))
   | .flush =>
     if fail then setPc s p (.close false)
     else setPc (modInode s q.ino fun n => { n with chunks := n.chunks ++ (written pr).drop pr.nPack }) p (.close true)
